@@ -313,6 +313,93 @@ def all_dims(n, vals, lo, hi):
         if lo <= prod(d) <= hi:
             yield d
 
+from props.common import Task                                                               # noqa: E402
+
+
+class SparseRelabelling(Task):
+    """permute_systems / swap on a scipy-sparse operator whose non-zero entries carry pairwise distinct labels: the result must be
+    the oracle's index map applied to the labels (a relabelling is determined by where distinct labels go).  Concrete labels, every
+    permutation / flag of the bound, the three storage formats; sparse entries cannot be solver terms (scipy realises them), so
+    this is the sparse counterpart of the symbolic dense obligations (round-6 seed: column selection applied with the inverse map
+    for sparse inputs only)."""
+    engine = "concrete-labels (real function on scipy-sparse input vs the oracle index map)"
+
+    def __init__(self, rdims, cdims, perm, inv, row_only, fmt, via="permute_systems"):
+        super().__init__("permute.sparse_operator_is_relabelled_like_a_dense_one", {"row_dims": list(rdims), "col_dims": list(cdims), "perm": list(perm), "inv_perm": inv,
+                                                                                     "row_only": row_only, "format": fmt, "via": via})
+        self.a = (list(rdims), list(cdims), list(perm), inv, row_only, fmt, via)
+
+    def _go(self):
+        import scipy.sparse as sp
+        rd, cd, perm, inv, row_only, fmt, via = self.a
+        R, C = int(np.prod(rd)), int(np.prod(cd))
+        X = (np.arange(R * C, dtype=float).reshape(R, C) + 1.0)
+        X[::2, 1::3] = 0.0                                                   # genuinely sparse pattern, labels stay distinct
+        S = getattr(sp, fmt + "_matrix")(X)
+        dim = list(rd) if rd == cd else [list(rd), list(cd)]
+        if via == "swap":
+            i, j = [k for k in range(len(perm)) if perm[k] != k]
+            got = swap(S, [i + 1, j + 1], dim)
+        else:
+            got = permute_systems(S, list(perm), dim, row_only, inv)
+        got = got.toarray() if sp.issparse(got) else np.asarray(got)
+        ri = perm_index(inv_of(perm) if inv else list(perm), rd) if True else None
+        want = X[ri, :]
+        if not row_only:
+            ci = perm_index(inv_of(perm) if inv else list(perm), cd)
+            want = want[:, ci]
+        return got, want
+
+    def _run(self, rec, seed):
+        try:
+            got, want = self._go()
+        except Exception as e:  # noqa: BLE001
+            rec["status"] = "violation"
+            rec["violation"] = {"source": "the real function raises on a sparse operator (reproduced)", "inputs": self.cfg, "exception": f"{type(e).__name__}: {str(e)[:300]}"}
+            return
+        rec["reachable"] = True
+        if got.shape == want.shape and np.array_equal(got, want):
+            rec["status"] = "discharged"
+        else:
+            rec["status"] = "violation"
+            rec["violation"] = {"source": "sparse operator relabelled differently from the definition (reproduced on the real function)", "inputs": self.cfg,
+                                "actual": got.tolist(), "expected": want.tolist()}
+
+    def replay(self, rp):
+        try:
+            got, want = self._go()
+        except Exception as e:  # noqa: BLE001
+            print({"exception": str(e)})
+            return False
+        return got.shape == want.shape and np.array_equal(got, want)
+
+
+def inv_of(perm):
+    out = [0] * len(perm)
+    for i, p_ in enumerate(perm):
+        out[p_] = i
+    return out
+
+
+def sparse_obligations(tier):
+    obs = []
+    shapes = [((2, 3), (2, 3)), ((2, 2, 3), (2, 2, 3)), ((2, 3, 2), (3, 2, 2)), ((3, 2), (2, 2))]
+    if tier == "thorough":
+        shapes += [((2, 3, 4), (2, 3, 4)), ((2, 2, 2, 3), (2, 2, 2, 3))]
+    k = 0
+    for rd, cd in shapes:
+        for perm in itertools.permutations(range(len(rd))):
+            if list(perm) == sorted(perm):
+                continue
+            for inv in (False, True):
+                for row_only in (False, True):
+                    fmt = ("csr", "csc", "coo")[k % 3]
+                    k += 1
+                    obs.append(SparseRelabelling(rd, cd, perm, inv, row_only, fmt))
+            if sum(1 for a, b_ in enumerate(perm) if a != b_) == 2 and rd == cd:
+                obs.append(SparseRelabelling(rd, cd, perm, False, False, "csr", via="swap"))
+    return obs
+
 
 def obligations(tier):
     T = tier == "thorough"
@@ -438,4 +525,5 @@ def obligations(tier):
         for perm in itertools.permutations(range(3)):
             for inv in (False, True):
                 obs.append(ob_kron(sh, perm, inv))
+    obs += sparse_obligations(tier)
     return obs
